@@ -841,7 +841,8 @@ def r04_10(ctx):
         conts = [x for x in ast.walk(l) if isinstance(x, ast.Continue)]
         okc = True
         for x in conts:
-            gs = [ast.unparse(t).replace(" ", "") for t, p in scg.guards(x) if p]
+            from ..paths import canon_guard
+            gs = [canon_guard(t, p)[0].replace(" ", "") for t, p in scg.path_guards(x) if canon_guard(t, p)[1]]     # `if ok: continue` / `if not ok: raise` + continue
             okc = okc and any("is_constant()" in t and "is_one()" in t for t in gs)
         ctx.check(okc and len(conts) <= 1, "transcribe_placeholders skips only constant-true constraints", detail="constraint skipped on replay",
                   expected="continue only under MX(c).is_constant() and MX(c).is_one()", found=str(len(conts)), fi=g)
